@@ -5,18 +5,57 @@ JUDGE = ("judge.J06", "J06.judge")
 JUDGE_IMPORTS = ("From NSQV Require Import model.Meta.",)
 JUDGE_SCOPE = "N_scope"
 REPO_BINS = [("nsqd", "apps/nsqd", "verif")]
-RULE = ("TODO")
-TRUSTED = []
-ASSUMPTIONS = []
-LEVEL_TEXT = "TODO"
-LEVEL_NOTE = "TODO"
-TECHNIQUE = "TODO"
+RULE = ("the REAL apps/nsqd binary (built -tags verif from the repository under test) as a subprocess on a scratch data path. "
+        "(a) churn scenarios: 1-3 start/kill cycles plus an observation cycle; per cycle 0-9 requests from ONE sequential HTTP client "
+        "(generator keeps its own idea of what exists so ~85% of the requests hit existing objects: topic/channel create 40%, pause/unpause 30%, "
+        "delete 18%, exact-idle points 6%, malformed stream 6% = empty / spaced / '#'-containing / 65-byte / doubly-suffixed / non-ASCII names on "
+        "every request kind; names include ephemeral topics and channels); after every answered request GET /stats is recorded; the daemon is "
+        "SIGKILLed 45% at the k-th hit of a named point (persist:after-tmp-write / after-fsync / after-rename, delete-topic|channel:before|after-remove, "
+        "notify:spawn / notify:done; k aimed at the estimated hit count, boot persist included), 17% at a random wall-clock instant during the requests, "
+        "20% immediately after the last answer, 18% after exact idleness (status socket: notify:spawn == notify:done, no request in flight); "
+        "35% of the cycles hold deleters at before-remove until pending Notify goroutines are done (the F6 schedule); a concurrent reader samples "
+        "nsqd.dat every ~150 us; 15% of the scenarios run under strace -f (openat/write/fsync/close/rename*/unlink*/truncate* projected on nsqd.dat*); "
+        "after each kill nsqd.dat is read and the daemon restarted. (b) crafted nsqd.dat files fed to start-up: invalid names, duplicate topics/channels "
+        "with conflicting paused flags, ephemeral names, truncation at a random byte, garbage, absent file. (c) data-path lock: second daemon on a "
+        "live path, third after SIGKILL. A case is non-trivial when at least one request was sent / a file was present; distinct = distinct recorded histories.")
+TRUSTED = [
+    "modelled, not verified: the Go scheduler, sync.RWMutex (NSQD.Lock excludes other lockers; RLock blocks while a writer holds it), atomic flag stores, "
+    "encoding/json (a proper prefix of the marshalled document is not decodable; a complete one decodes to what was marshalled), os.OpenFile/Write/Sync/Rename "
+    "(rename is atomic with respect to readers and to SIGKILL), SIGKILL = loss of process state only",
+    "hooks (build tag verif, no-op without it): verifPoint calls in PersistMetadata/writeSyncFile, DeleteExistingTopic/Channel, Notify; /repo/nsqd/verif_meta.go "
+    "(status socket with the hit counters; NSQ_VERIF_HOLD makes a point wait for pending Notify goroutines); NSQ_VERIF_KILL from verif_points.go",
+    "strace output parsing and /stats JSON parsing in the driver; the driver's client is sequential (one request in flight), which is what makes the live history schedule-independent for the judge",
+    "tools/gotables/meta.go reads call order and guard texts only (go/ast); it does not evaluate control flow",
+]
+ASSUMPTIONS = [
+    "C06 'partial': power-loss durability (fsync honesty; the code does not fsync the directory after the rename) is outside the crash model - a SIGKILL keeps the page cache, so the model's crash loses process state only",
+    "C06 'partial': the data-path lock (flock) is OS behaviour; it is tested on the real binaries (second daemon exits non-zero, first unaffected, lock released by SIGKILL), not proved",
+    "C06 'partial': GetMetadata reads the topics one after the other, each under its own lock (modelled so); with two or more CONCURRENT mutating clients the persisted document can combine channel sets of different instants, "
+    "so 'the restart state is ONE live state the daemon passed through' is proved componentwise (topic set = one passed-through state's; each entry = that topic in some passed-through state) and checked exactly for a sequential client",
+    "C06_pause_acked is proved for topic pause/unpause; the channel variant has the same handler shape (checked by C06_source_shape, exercised by the driver's monitor) but its proof is not mechanised",
+    "persist failures (disk full, EIO) are not modelled: PersistMetadata is assumed to succeed",
+]
+LEVEL_TEXT = ("Machine-checked proof (Coq 8.16.1) over an executable small-step model of the daemon's metadata persistence (model/Meta.v): request threads as lists of "
+              "atomic micro-steps in program order, a counter of pending Notify goroutines, one persist job holding the NSQD lock that reads the topics one by one and "
+              "then performs open(O_TRUNC) tmp / write (any chunking) / fsync / close / rename, a file system, SIGKILL and restart (tolerant load + start-up persist). "
+              "For EVERY schedule (all interleavings, kills between any two steps and inside the write, any number of restarts): nsqd.dat is absent or a completely "
+              "written, fsynced document whose topic set is that of a live state passed through and whose entries are persisted forms of topics in live states passed "
+              "through, and no restart finds an undecodable file (C06_atomic); whenever no request, Notify goroutine or persist is in progress the file equals the "
+              "persisted form of the live state - every completed creation in, every completed deletion out (C06_idle_full; the pre-fix program is refuted by the F6 "
+              "schedule inside Coq); an answered topic pause/unpause is in the file from the answer on, across kills and restarts, until another request touches the "
+              "topic (C06_pause_acked). The model's step function is DEFINED from gen/MetaShape.v, the call-order table regenerated from the source on every run "
+              "(C06_source_shape). Tied to the code by differential correspondence on the real nsqd binary under kill-point / wall-clock SIGKILL, strace and a concurrent reader.")
+LEVEL_NOTE = ("Trusted: Coq kernel + vm_compute; the hand-written model (scheduler, locks, JSON, file system modelled, see trusted_base); gotables (syntax only); the verif hooks; "
+              "the correspondence is sampled, the theorems are not. Partial: power-loss durability and flock are OS behaviour (tested, not proved); with concurrent mutators "
+              "the document is componentwise - not globally - a passed-through state; channel pause proof not mechanised; persist I/O errors not modelled.")
+TECHNIQUE = "Coq invariant proofs over all interleavings and crash points of a small-step model + differential correspondence on the real daemon (SIGKILL at named points, strace)"
 DESIGN_REF = "DESIGN.md §5 C06"
+SEARCH_SCALE = 4
 
 
 def drivers():
     def args(tier, seed, scale):
-        n = (300 if tier == "quick" else 600) * scale
-        nl = (40 if tier == "quick" else 200) * scale
+        n = (300 if tier == "quick" else 3000) * scale
+        nl = (40 if tier == "quick" else 400) * scale
         return ["-n", str(n), "-nload", str(nl), "-seed", str(seed)]
     return [{"driver": "metadrive", "args": args, "replay_args": lambda tier: []}]
